@@ -1449,13 +1449,20 @@ func (a *A) isMoveBackForAcceptedRow(fn *ssa.Function, st *ssa.Store, W *types.N
 		cc, ok := v.(*ssa.Call)
 		return ok && cc.Call.StaticCallee() != nil && cc.Call.StaticCallee().Name() == "IsEventTimeLate" && len(cc.Call.Args) == 2 && resolveBound(cc.Call.Args[1]) == ts
 	}
-	isNoWatermark := func(v ssa.Value) bool {
-		bo, ok := v.(*ssa.BinOp)
-		if !ok || bo.Op != token.EQL || !isNilConst(bo.Y) {
-			return false
+	// watermarkTest: v is `w.watermark == nil` (eq true) or `w.watermark != nil` (eq false)
+	watermarkTest := func(v ssa.Value) (eq, ok bool) {
+		bo, isB := v.(*ssa.BinOp)
+		if !isB || (bo.Op != token.EQL && bo.Op != token.NEQ) {
+			return false, false
 		}
-		t := TermOf(bo.X, nil)
-		return t.Kind == "field" && t.Field == wmF
+		x := bo.X
+		if isNilConst(x) {
+			x = bo.Y
+		} else if !isNilConst(bo.Y) {
+			return false, false
+		}
+		t := TermOf(x, nil)
+		return bo.Op == token.EQL, t.Kind == "field" && t.Field == wmF
 	}
 	// not reachable when the row is not earlier than the current interval
 	if reachUnder(fn, st, func(v ssa.Value) Tri {
@@ -1466,16 +1473,18 @@ func (a *A) isMoveBackForAcceptedRow(fn *ssa.Function, st *ssa.Store, W *types.N
 	}) {
 		return false
 	}
-	// not reachable for a late row
-	if reachUnder(fn, st, func(v ssa.Value) Tri {
+	// not reachable for a late row (both analyses over-approximate what is feasible: the fixpoint evaluates boolean
+	// helpers, the path search keeps a named boolean `late := A && B && isLate` consistent with a second test of A)
+	lateRow := func(v ssa.Value) Tri {
 		if isLate(v) {
 			return T
 		}
-		if isNoWatermark(v) {
-			return F
+		if eq, ok := watermarkTest(v); ok {
+			return tri(!eq) // there is a watermark
 		}
 		return U
-	}) {
+	}
+	if reachUnder(fn, st, lateRow) && reachOnSomePath(fn, st, lateRow) {
 		return false
 	}
 	return true
